@@ -149,10 +149,11 @@ def _run_scenario(sc, files):
         elif not clause.startswith('callback'):
             if sh['gm_live']:
                 return '#SetGenerationMonitor-while-live'
+            objective = clause in ('energy-history-non-increasing', 'stopped-step-monitor-ends-in-result')
+            if sh['reconf'] and (objective or sh['fin_at'] is None):
+                return '#reconfigured'        # penalty / constraints / ranges changed after the first evaluation
             if sh['fin_at'] is not None:
-                return '#after-Finalize' + ('+reconfigured' if sh['reconf'] else '')
-            if sh['reconf']:
-                return '#reconfigured'
+                return '#after-Finalize'      # Finalize ran earlier in this run (directly, at a stop, via a Set*)
         return ''
 
     def v(clause, detail, i):
